@@ -147,7 +147,7 @@ def run_file_history(arg):
     return {"viol": [(s, c, d) for s, (c, d) in best.items()], "hist": n_hist, "ops": n_ops, "outcomes": outcomes}
 
 
-DIR_OPS = [("w", "a"), ("w", "b"), ("w", "s/c"), ("rm", "a"), ("rm", "b"), ("touch", "a"), ("cpdir",), ("rmdir",), ("mkdir",)]
+DIR_OPS = [("w", "a"), ("w", "b"), ("w", "s/c"), ("rm", "a"), ("rm", "b"), ("touch", "a"), ("cpdir",), ("rmdir",), ("mkdir",), ("wdest", "x")]
 
 
 def run_dir_history(arg):
@@ -200,6 +200,13 @@ def run_dir_history(arg):
                         continue
                     t += 10
                     os.utime(p, (t, t))
+                elif k == "wdest":
+                    # a file that exists only in the copy destination (left from an earlier copy, or put there by something else)
+                    if not is_dir:
+                        continue
+                    os.makedirs(d2, exist_ok=True)
+                    with open(os.path.join(d2, op[1]), "w") as f:
+                        f.write("only-in-destination")
                 elif k == "cpdir":
                     if not is_dir or not os.path.isdir(d):
                         continue
